@@ -12,27 +12,37 @@ Definition serr_code (s : stream) : Z :=
   | Some SErrNoBeacon => 1
   | Some SErrSend => 2
   | Some SErrReplaced => 3
+  | Some SErrCanceled => 4
   end.
 
-Fixpoint beacons_eqb (a b : list beacon) : bool :=
+(* what was passed to Send: round, signature token, previous-signature token *)
+Definition sentobs := (Z * Z * Z)%type.
+
+Fixpoint sent_ok (chained : bool) (sto : list beacon) (a : list beacon) (b : list sentobs) : bool :=
   match a, b with
   | [], [] => true
-  | x :: a', y :: b' => (fst x =? fst y) && (snd x =? snd y) && beacons_eqb a' b'
+  | x :: a', (r, t, p) :: b' =>
+      (fst x =? r) && (snd x =? t) && (stored_prev chained sto x =? p) && sent_ok chained sto a' b'
   | _, _ => false
   end.
 
-Fixpoint obs_ok (ss : list stream) (obs : list (list beacon * Z)) : bool :=
+Fixpoint obs_ok (chained : bool) (sto : list beacon) (ss : list stream) (obs : list (list sentobs * Z)) : bool :=
   match ss, obs with
   | [], [] => true
-  | s :: ss', (sent, code) :: obs' => beacons_eqb (s_sent s) sent && (serr_code s =? code) && obs_ok ss' obs'
+  | s :: ss', (sent, code) :: obs' =>
+      sent_ok chained sto (s_sent s) sent && (serr_code s =? code) && obs_ok chained sto ss' obs'
   | _, _ => false
   end.
 
-Inductive scase := SCase (bk : backend) (genesis : Z) (evs : list sev) (obs : list (list beacon * Z)).
+(* nreg: the number of callbacks registered in the real callback store at the end of the schedule *)
+Inductive scase :=
+  SCase (bk : backend) (chained : bool) (genesis : Z) (evs : list sev) (obs : list (list sentobs * Z)) (nreg : Z).
 
 Definition ok (c : scase) : bool :=
   match c with
-  | SCase bk g evs obs => obs_ok (streams (ss_run bk (ss_init g) evs)) obs
+  | SCase bk chained g evs obs nreg =>
+      let st := ss_run bk (ss_init g) evs in
+      obs_ok chained (store st) (streams st) obs && (Z.of_nat (length (reg st)) =? nreg)
   end.
 
 Definition mismatches (cs : list scase) : list Z := mism_from ok 0 cs.
